@@ -50,6 +50,7 @@ impl ReadCase {
         let mut f = Fp::default();
         f.bytes(&self.input);
         f.u(self.cfg.allow as u64).u(self.cfg.capacity.map(|c| c as u64 + 1).unwrap_or(0)).u(self.cfg.eof_end as u64);
+        f.u(self.cfg.order as u64).u(self.cfg.decoy.map_or(0, |(m, k, e)| 1 + m as u64 + 8 * k as u64 + 64 * e as u64));
         for b in &self.cfg.buffered {
             f.u(*b);
         }
